@@ -47,6 +47,13 @@ def run(prop, base_check):
         meta = json.load(open(m))
         if prop in meta.get("detected_by", {}):
             seeded.append((os.path.dirname(m), meta))
+    # hand-written mutants recorded as caught by this property (mutants/matrix.json)
+    mm = os.path.join(VERIF, "mutants", "matrix.json")
+    if os.path.exists(mm):
+        for k, v in sorted(json.load(open(mm)).items()):
+            name = os.path.basename(k)
+            if isinstance(v, dict) and prop in v and os.path.exists(os.path.join(VERIF, "mutants", name, "patch.diff")):
+                seeded.append((os.path.join(VERIF, "mutants", name), {"detected_by": {prop: [kk.split("/", 1)[1] for kk in v[prop]]}}))
     benign = sorted(glob.glob(os.path.join(VERIF, "benign", "*", "patch.diff")))
     if not seeded and not benign:
         return {"seeded": [], "benign": [], "note": "no stored variants for this property"}
